@@ -891,6 +891,17 @@ impl<'a, 'b> Sentence<'a, 'b> {
         }
     }
 
+    // Tags may contain the delimiters of the partial annotation format, which are escaped so that
+    // the written text can be parsed again.
+    fn push_escaped_partial_annotation_tag(buf: &mut String, tag: &str) {
+        for c in tag.chars() {
+            if matches!(c, ' ' | '\\' | '/' | '-' | '|') {
+                buf.push('\\');
+            }
+            buf.push(c);
+        }
+    }
+
     /// Writes a text with partial annotations.
     ///
     /// # Examples
@@ -920,7 +931,7 @@ impl<'a, 'b> Sentence<'a, 'b> {
             for tag in &ts[..ts.iter().rposition(|x| x.is_some()).map_or(0, |x| x + 1)] {
                 buf.push('/');
                 if let Some(tag) = tag {
-                    buf.push_str(tag);
+                    Self::push_escaped_partial_annotation_tag(buf, tag);
                 }
             }
             for ((c, ts), &b) in char_iter.zip(tag_iter).zip(&self.boundaries) {
@@ -933,7 +944,7 @@ impl<'a, 'b> Sentence<'a, 'b> {
                 for tag in &ts[..ts.iter().rposition(|x| x.is_some()).map_or(0, |x| x + 1)] {
                     buf.push('/');
                     if let Some(tag) = tag {
-                        buf.push_str(tag);
+                        Self::push_escaped_partial_annotation_tag(buf, tag);
                     }
                 }
             }
